@@ -335,3 +335,31 @@ PROPS["C14"] = {
                                   "from_ecdsa", "self_verify", "msg_len_0", "msg_len_odd", "msg_len_long", "vector"]},
     "assumptions": ["k' = 0 (a 2^-256 event) is covered only by the model"],
 }
+
+PROPS["C15"] = {
+    "title": "hash-to-curve equals RFC 9380 (secp256k1 XMD:SHA-256 SSWU RO/NU) on every input",
+    "level": "model_checking",
+    "level_text": "H2C.tla transcribes RFC 9380: expand_message_xmd (incl. DSTs over 255 bytes), hash_to_field with L = 48, the simplified SWU map in its "
+                  "declarative form (6.6.2: inv0, is_square, sqrt, sgn0), the 3-isogeny with the RFC's constants, and the straight-line form F.2 with "
+                  "sqrt_ratio as coded in internal/swu. TLC checks on a miniature SWU-capable curve (parameters found by the RFC's H.2 procedure) that for "
+                  "ALL u the straight-line algorithm equals the declarative map, lands on E', obeys the sgn0 rule and handles the exceptional u, and that "
+                  "sqrt_ratio meets its contract for ALL (u, v). The real suites / SetUniformBytes / expandMessageXMD / swu.MapToCurveSimpleSWU / swu.IsoMap are "
+                  "bound by trace validation at full size: TLC recomputes the WHOLE pipeline (SHA-256 primitive) from the logged message / DST / uniform bytes "
+                  "for DST lengths {1,254,255,256,257,1000,5000,0}, message lengths 0..300, uniform strings of every length 31..65 incl. values >= p, "
+                  "u in {0,1,p-1, sqrt(1/11) when it exists, random of either parity / either gx1 residuosity}, isogeny denominators' roots, output lengths "
+                  "around block boundaries and the ell limit, and the RFC vector files; every output must be on the curve and repeatable.",
+    "level_note": "trusted: TLC, BigInt/EcAdd/SHA-256 overrides (self-tested); the isogeny constants are the RFC's (also checked: E' points map onto E)",
+    "exhaustive": [
+        {"spec": "MC_H2C", "params": "mini211"},
+        {"spec": "MC_H2C", "params": "mini163"},
+        {"spec": "MC_H2C", "params": "mini43", "tiers": ("thorough",)},
+        {"spec": "MC_H2C", "params": "mini79", "tiers": ("thorough",)},
+    ],
+    "drivers": [{"driver": "h2c", "trace": "Trace_H2C"}],
+    "require_classes": {"quick": ["suite_ro", "suite_nu", "dst_1", "dst_254", "dst_255", "dst_256", "dst_257", "dst_long", "dst_empty", "msg_empty",
+                                  "msg_long", "uni_len_32", "uni_len_48", "uni_len_64", "uni_len_other", "uni_ge_p", "uni_panic", "u_zero", "u_one",
+                                  "u_pm1", "u_exceptional", "gx1_square", "gx1_nonsquare", "u_odd", "u_even", "y_flipped", "xmd_ok", "xmd_err",
+                                  "xmd_len_edge", "xmd_ell_max", "xmd_vector", "iso_ok", "swu_ok", "suite_vector", "pure"]},
+    "assumptions": ["full-size inputs are sampled per class with an exact oracle; the equivalence F.2 = 6.6.2 for all u is exhaustive only on miniature fields",
+                    "a root of the isogeny's denominators is exercised only if one exists over F_p (class iso_exceptional is reported, not required)"],
+}
